@@ -27,7 +27,7 @@ RULES_DOC.update({
     "R5": "scheduler replacement: REPLACE after BLOCKED; main loop installs, frees, resumes the waiter once before the finish test",
     "R6": "loops bounded by X->num_pools index X->pools (same object), repository-wide",
 })
-VARIANTS = ["no_ext_thread"]
+VARIANTS = ["no_ext_thread", "tool_interface"]
 S = "src/stream.c"
 
 
